@@ -116,7 +116,7 @@ func Judge(sc *world.Scenario, w *world.World) []world.Violation {
 		vs = append(vs, world.Violation{Sig: sig, Msg: fmt.Sprintf("proxy panicked: %v\n%s", w.Panic, clipStack(w.Stack))})
 	}
 	if w.Livelock {
-		vs = append(vs, world.Violation{Sig: "livelock", Msg: "proxy loop iterated > 2e6 times without a system call"})
+		vs = append(vs, world.Violation{Sig: "livelock", Msg: "proxy loop iterated > 6e7 times without a system call"})
 	}
 	if w.RunErr != nil {
 		vs = append(vs, world.Violation{Sig: "loop-exit", Msg: "event loop terminated: " + w.RunErr.Error()})
